@@ -156,10 +156,14 @@ CHECKS = {
                  "account loses value only if it sent a transaction in the block and at most its stated amounts plus fees; "
                  "blocks made of transfers only are re-executed by a big-integer reference executor (amount, fee = gasUsed x "
                  "price, whole-balance fallback, integer fee split) and every touched balance must match exactly. Non-trivial = "
-                 "a block mixing a successful, a failing and a fee-fallback transaction; distinct = hash of history."),
+                 "a block mixing a successful, a failing and a fee-fallback transaction; distinct = hash of history. "
+                 "Second state machine (TestC14Gov, gov world): audit-administrator flows - registration on a non-validating node, "
+                 "node registration and logout (pauses the administrator), re-binding to another node, role logout, conclusions by four "
+                 "votes; after every block the sum of all balances may have grown only by the documented grant times the number of "
+                 "administrators approved for the first time in that block (the grant is measured at the first approval of the case)."),
         "assumptions": ["fee of a transaction = receipt.GasUsed x configured gas price (the gas schedule itself is not re-derived)"],
-        "quick": [T("TestC14", 8, 300, steps=30)],
-        "thorough": [T("TestC14", 16, 12000, steps=30, timeout=3000)],
+        "quick": [T("TestC14", 8, 300, steps=30), T("TestC14Gov", 8, 20, steps=12)],
+        "thorough": [T("TestC14", 16, 12000, steps=30, timeout=3000), T("TestC14Gov", 16, 600, steps=15, timeout=3000)],
     },
     "C09": {
         "level": "exploration",
